@@ -117,7 +117,9 @@ def settleStep (r : StRes) (a b : SSnap) : StRes := Id.run do
       -- recorded finding: the claim is on a dispute whose from-stake fee was escrowed short of the recorded amount
       let id := ((x.get "id").toNat?).getD 0
       let first := ((a.ds.find? (·.id == id)).map (fun d => d.prev.foldl min id)).getD id
-      if r.dusty.contains first then r := tknown r s!"{x.kind} of {x.signer} on dispute {id} rejected for lack of funds: its from-stake fee was escrowed short of the recorded amount"
+      -- (the dispute account is one pool: the loya missing from a dusty dispute can surface at the last claim of any dispute)
+      let _ := first
+      if !r.dusty.isEmpty then r := tknown r s!"{x.kind} of {x.signer} on dispute {id} rejected for lack of funds: the from-stake fee of dispute(s) {r.dusty} was escrowed short of the recorded amount"
       else r := tfail r "a claim was rejected for lack of funds"
   -- execution
   for d in b.ds do
